@@ -372,6 +372,7 @@ def judge(spec, res):
     k = 0
     active = True          # a section (incl. the prologue) is active
     past_end = False
+    past_end_whole = False
     stopped = False
     for op, o in zip(spec['ops'], obs[1:]):
         kind = op['op']
@@ -391,6 +392,8 @@ def judge(spec, res):
                     return vs
             else:
                 past_end = True
+                # whatever is presented now (pedal: the whole file again), its diagnostics speak about the original file
+                past_end_whole = o['main_code'] == original
                 labels = [f['label'] for f in o['new_feedback']]
                 if 'not_enough_sections' not in labels:
                     viol('past-the-end-without-feedback', 'section %d of %d requested, feedback added: %s' % (k, M, labels))
@@ -400,6 +403,7 @@ def judge(spec, res):
         if active and not past_end and not stopped and indep and 0 < k <= M:
             cur_off = offset(k)
         in_section = active and not stopped and not past_end
+        whole_after_past_end = active and not stopped and past_end and past_end_whole
         if kind in ('verify', 'tifa') and o.get('planted_local_line') is not None and (in_section or stopped):
             want_line = cur_off + o['planted_local_line']
             fl = op.get('flavour', 0) % 3
@@ -426,7 +430,7 @@ def judge(spec, res):
                         viol('syntax-traceback-line', 'traceback text says line %d, original line is %d' % (n, want_line),
                              '/section=%s' % ('prologue' if k == 0 else 'later'))
                         return vs
-        if kind == 'run' and (in_section or (stopped and o.get('after_stop'))):
+        if kind == 'run' and (in_section or whole_after_past_end or (stopped and o.get('after_stop'))):
             for fo in o.get('faulted', []):
                 if fo.get('raised'):
                     viol('run-raised', 'run() raised %s' % (fo['raised'],), '/as=%s' % fo['raised']['cls'])
@@ -438,7 +442,7 @@ def judge(spec, res):
                     continue       # swallowed or C04 territory
                 f = rt[0]
                 want_line = (0 if stopped else cur_off) + fo['fired_line']
-                where = 'after-stop' if stopped else ('prologue' if k == 0 else 'later')
+                where = 'after-stop' if stopped else ('past-the-end' if past_end else ('prologue' if k == 0 else 'later'))
                 if f['line'] != want_line:
                     viol('runtime-location-line', 'exception raised on original line %d (section %d, local line %d); feedback.location.line = %r'
                          % (want_line, k, fo['fired_line'], f['line']), '/section=%s' % where)
@@ -467,16 +471,22 @@ def judge(spec, res):
                     continue
                 # independent mode: only the function defined by the ACTIVE section has line numbers relative to it;
                 # cumulative mode: every function was compiled from a prefix of the file, so its lines are file lines
-                if indep and k > 0 and fo['fn'] != own:
-                    continue
-                if indep and k == 0 and fo['fn'] != spec.get('funcs', {}).get('0'):
-                    continue
+                # ... a function that an EARLIER section defined (it is still in the student namespace) has line numbers
+                # relative to that section
+                fn_off = cur_off
+                foreign = ''
+                if indep and fo['fn'] != (own if k > 0 else spec.get('funcs', {}).get('0')):
+                    home = next((int(j) for j, name in spec.get('funcs', {}).items() if name == fo['fn']), None)
+                    if home is None:
+                        continue
+                    fn_off = offset(home) if home > 0 else 0
+                    foreign = '/function-of-another-section'
                 rt = [f for f in fo['new_feedback'] if f['category'] == 'runtime']
                 if len(rt) != 1:
                     continue
                 f = rt[0]
-                want_line = cur_off + fo['fired_line']
-                where = 'prologue' if k == 0 else 'later'
+                want_line = fn_off + fo['fired_line']
+                where = ('prologue' if k == 0 else 'later') + foreign
                 if f['line'] != want_line:
                     viol('call-location-line', 'exception raised in %s on original line %d (section %d, local line %d); feedback.location.line = %r'
                          % (fo['fn'], want_line, k, fo['fired_line'], f['line']), '/section=%s' % where)
